@@ -654,16 +654,11 @@ func conclude(agg *aggregate, m *meta, start time.Time) int {
 		reported++
 		exit = 1
 	}
-	ids := make([]string, 0, len(knownSeen))
-	for id := range knownSeen {
-		ids = append(ids, id)
-	}
-	sort.Strings(ids)
-	for _, id := range ids {
-		for _, f := range kf.Findings {
-			if f.ID == id {
-				fmt.Printf("KNOWN-FINDING: property=%s %s [%s, seen in %d runs]\n", prop, f.What, f.ID, knownSeen[id])
-			}
+	// every finding listed for this property is named, whether this run happened to meet it or not (the list is
+	// what suppresses; the count says what this run saw)
+	for _, f := range kf.Findings {
+		if f.Property == prop {
+			fmt.Printf("KNOWN-FINDING: property=%s %s [%s, seen in %d runs]\n", prop, f.What, f.ID, knownSeen[f.ID])
 		}
 	}
 	nviol := reported
